@@ -39,6 +39,11 @@ func sizeValue(v ssa.Value, depth int) (string, bool) {
 				return b.Name() + "(" + describe(x.Call.Args[0]) + ")", true
 			}
 		}
+		if g := x.Call.StaticCallee(); g != nil && g.Signature.Recv() != nil && g.Signature.Params().Len() == 0 && (g.Name() == "Size" || g.Name() == "Len" || g.Name() == "Cap") {
+			if b, ok := x.Type().Underlying().(*types.Basic); ok && b.Info()&types.IsInteger != 0 {
+				return describe(x.Call.Args[0]) + "." + g.Name() + "()", true
+			}
+		}
 	case *ssa.Parameter:
 		if b, ok := x.Type().Underlying().(*types.Basic); ok && b.Info()&types.IsInteger != 0 {
 			n := strings.ToLower(x.Name())
@@ -360,6 +365,8 @@ func checkC14(w *World, r *Report) {
 	checkParseTreesNotMemoised(w, r)
 	checkTreesAreParsed(w, r)
 	checkSizesNotNarrowed(w, r)
+	// (R14.12) tokens once emitted stay in the stream: no element-wise copy of a token list keeps or drops a token by what it is
+	checkListsNotFiltered(w, r, "R14.12", w.named("Token"), "token", "tokens already emitted (comments, text) are removed from the stream — and only when the buffer happens to be full, so what a construct means depends on how much template precedes it")
 }
 
 // checkNoAliasedHeaders (R14.3 / R01.7): no string or slice header is manufactured over memory
